@@ -20,6 +20,10 @@ static inline float spec_half_value(u16 h) {
   float a = spec_half_isinf(h) ? __builtin_inff() : spec_half_mag((u16)(h & 0x7fff));
   return (h & 0x8000) ? -a : a;
 }
+static inline int spec_half_exact(u16 h, float f) {
+  return (spec_half_isnan(h) && spec_isnan32(f) && spec_sign32(f) == (h >> 15)) ||
+         (!spec_half_isnan(h) && ll2c_f32_bits(f) == ll2c_f32_bits(spec_half_value(h)));
+}
 static inline double spec_dabs(double d) { return d < 0 ? -d : d; }
 /* r is a half nearest to the finite float x with |x| < 65520 (either neighbour on a tie) */
 static inline int spec_half_nearest(float x, u16 r) {
@@ -31,6 +35,25 @@ static inline int spec_half_nearest(float x, u16 r) {
   double dp = k > 0 ? spec_dabs((double)spec_half_mag((u16)(k - 1)) - ax) : ax + (double)spec_half_mag(1);
   return d0 <= dn && d0 <= dp;
 }
+/* the complete float -> half contract of property C07 as one predicate: r is an admissible half for x */
+static inline int spec_half_ok(float x, u16 r) {
+  return (!(spec_isfinite32(x) && spec_fabs32(x) < 65520.0f) || spec_half_nearest(x, r)) && ((r >> 15) == spec_sign32(x)) &&
+         (spec_isnan32(x) || !(spec_fabs32(x) >= 65520.0f) || r == (u16)((spec_sign32(x) << 15) | 0x7c00)) &&
+         (spec_isnan32(x) || !(spec_fabs32(x) < 0x1p-25f) || r == (u16)(spec_sign32(x) << 15)) &&
+         (!spec_isnan32(x) || spec_half_isnan(r)) && (spec_isnan32(x) || !spec_half_isnan(r));
+}
+/* ABSTRACT spelling of the same predicate for modular caller proofs: under CBMC an uninterpreted predicate P(x, r).  A caller
+ * proof "callee ensures P(in, out)  =>  caller ensures P(x, RESULT)" holds for every P, hence for spec_half_ok, which the
+ * kernel's own (enforced) contract establishes.  Natively it IS spec_half_ok, so replays stay meaningful. */
+#ifdef LL2C_CBMC
+_Bool __CPROVER_uninterpreted_spec_half_ok(u32, u16);
+#define SPEC_HALF_OK_ABS(x, r) __CPROVER_uninterpreted_spec_half_ok(ll2c_f32_bits(x), (u16)(r))
+_Bool __CPROVER_uninterpreted_spec_half_exact(u16, u32);
+#define SPEC_HALF_EXACT_ABS(h, f) __CPROVER_uninterpreted_spec_half_exact((u16)(h), ll2c_f32_bits(f))
+#else
+#define SPEC_HALF_OK_ABS(x, r) spec_half_ok((x), (u16)(r))
+#define SPEC_HALF_EXACT_ABS(h, f) spec_half_exact((u16)(h), (f))
+#endif
 /* order-preserving map of non-NaN half codes to integers (+0 and -0 both map to 0) */
 static inline s32 spec_half_ord(u16 h) { return (h & 0x8000) ? -(s32)(h & 0x7fff) : (s32)(h & 0x7fff); }
 #endif
